@@ -35,6 +35,14 @@ CLAIMS = {
   text="Deductive proof that SearchCriteria.And yields the intersection field by field: for every size/date the combined Larger/Smaller/Since/Before/SentSince/SentBefore bound matches iff both operands' bounds match (unset = zero handled), every list field becomes old ++ other (length and element-wise, unbounded lengths), ModSeq is carried over / tightened; intersectSince/intersectBefore proved against the date matcher for all instants.",
   note="time.Time modelled as an opaque instant with IsZero/Before/After as a strict total order (assumed stdlib contract); operands must not share list backing arrays (precondition noListAliasing). The server parser's key-order independence and message.search's use of the semantics are not yet under contract.",
   design="§6 C19"),
+ "C08": dict(
+  text="Deductive proof of the per-operation obligations that keep the wire view consistent: Conn.poll forbids EXPUNGE exactly while answering FETCH, STORE and SEARCH (call-site obligation on Session.Poll, for every command name), UpdateWriter.WriteExpunge refuses when not allowed and reaches Conn.writeExpunge only when allowed; the in-memory back end's FETCH (closure of MailboxView.Fetch) hands only non-zero, client-known sequence numbers to FetchWriter.CreateMessage and its SEARCH adds only non-zero sequence numbers to the result, under the tracker's representation invariant (exported as imapserver.TrackerWF; EncodeSeqNum's contract from C07).",
+  note="KNOWN FINDING (known_findings.txt): MOVE numbers its EXPUNGE responses after queueing the same expunges (UserSession.Move/callsite:MoveWriter.WriteExpunge). Closure preconditions (tracker well-formedness under the mailbox lock) are assumed for the closure unit. Not covered: upper bound 'at most the announced count', count shrinking only through EXPUNGE, exactly-once reporting, staticNumSet canonicity, multi-session interleavings, IDLE.",
+  design="§6 C08"),
+ "C09": dict(
+  text="Deductive proof of two cores of the in-memory back end: (1) UID allocation in Mailbox.appendBytes — the new message gets exactly the old uidNext, uidNext advances by one, UIDVALIDITY is unchanged, the message is appended last and the existing list is unchanged, and the returned APPENDUID names that message (so UIDs strictly increase and are never reused); (2) message.bodySection's index arithmetic — for every non-negative partial offset and size, including 2^63-1, no signed overflow and no slice-bounds panic (overflow obligations enabled for this function).",
+  note="Not covered (not claimed): agreement of STORE/EXPUNGE/MOVE/STATUS/SEARCH/FETCH/LIST results with a reference model, UIDVALIDITY on re-creation, flag set semantics, text/header search (go-message), whole-history equivalence.",
+  design="§6 C09"),
  "C11": dict(
   text="Deductive proof of the sequential, input-dependent part: for every method of imapclient.Client except read and Close (all response parsers and handlers) and for all decoder outcomes (= all server byte streams): no index/slice-bounds violation, failed type assertion, division by zero or reachable explicit panic; message sequence numbers handed to handleFetch/handleExpunge are non-zero and every number added to a SEARCH result set is non-zero (so delivered result sets are static and SearchData.AllSeqNums/AllUIDs cannot panic on them); Range.append (enumeration of result sets) terminates at the uint32 boundary (shared with C15).",
   note="Nil-dereference freedom not claimed. Three type assertions that follow findPendingCmdFunc with a type-testing predicate and three panics guarding API misuse / stdlib contracts are assumed with the reason stated in the contract file. Not covered: recursion depth of readBody/readThreadList, ESEARCH/COPYUID dynamic-set rejection, time/memory growth, the reader goroutine's recover, accessor methods other than AllSeqNums/AllUIDs.",
